@@ -199,6 +199,55 @@ def memwin_cases(stride, phase=0):
     return out
 
 
+G17_PY = {"name": "g1", "params": ["i64"], "res": ["i64"], "regty": ["i", "i"], "gvar": True, "lrefs": [],
+          "insns": [{"op": "add", "d": {"k": "greg"}, "s": [{"k": "greg"}, {"k": "reg", "r": 1}]},
+                    {"op": "mov", "d": {"k": "reg", "r": 2}, "s": [{"k": "greg"}]},
+                    {"op": "add", "d": {"k": "reg", "r": 2}, "s": [{"k": "reg", "r": 2}, {"k": "imm", "w": [1, 0, 0, 0]}]},
+                    {"op": "ret", "s": [{"k": "reg", "r": 2}]}]}
+
+
+def gvar_cases():
+    """Parametric family: a global variable tied to a hard register, written in main and read/changed by a callee that declares it
+    too; the written value comes from a register that lives across earlier calls (so it sits in a callee-saved register), the
+    variable dies right after its last read.  Stores to the variable before a call, reads after it and the calls in between must
+    stay in program order at every level."""
+    R, I, M, ins, br = progs.op_reg, progs.op_imm, progs.op_mem, progs.ins, progs.br
+    GV = {"k": "greg"}
+    SAVE, A, B, T, U, RES = 20, 2, 3, 4, 5, 6
+    FREG = 18        # holds the address of g17: an indirect call is never inlined, so the call is still there when code is generated
+    call17 = lambda res, arg: {"op": "call", "callee": {"k": "reg", "f": 2, "r": FREG}, "res": [R(res)], "args": [arg]}
+    callx = lambda res, arg: {"op": "call", "callee": {"k": "ext"}, "res": [R(res)], "args": [I(3), arg]}
+    shapes = {
+        "set_call_read": [ins("mov", GV, R(A)), call17(RES, R(B)), ins("mov", R(T), GV)],
+        "set_ext_call_read": [ins("mov", GV, R(A)), callx(U, R(B)), call17(RES, R(U)), ins("mov", R(T), GV)],
+        "set_call_call_read": [ins("mov", GV, R(A)), call17(RES, R(B)), call17(U, R(RES)), ins("mov", R(T), GV), ins("add", R(RES), R(RES), R(U))],
+        "set_call_cmp": [ins("mov", GV, R(A)), call17(RES, R(B)), ins("ugt", GV, GV, R(B)), ins("mov", R(T), GV)],
+        "set_call_set": [ins("mov", GV, R(A)), call17(RES, R(B)), ins("mov", GV, R(B)), call17(U, I(5)), ins("mov", R(T), GV), ins("xor", R(RES), R(RES), R(U))],
+        "arm_call_read": [ins("mov", GV, I(9)), br("bf", "j", R(B)), ins("mov", GV, R(A)), "j", call17(RES, R(B)), ins("mov", R(T), GV)],
+        "loop_calls": [ins("mov", GV, R(A)), ins("mov", R(U), I(0)), ins("mov", R(RES), I(0)), "lp", br("bge", "out", R(U), I(3)), call17(T, R(U)),
+                       ins("add", R(RES), R(RES), R(T)), ins("add", R(U), R(U), I(1)), {"op": "jmp", "l": "lp"}, "out", ins("mov", R(T), GV)],
+    }
+    out = []
+    for name, body in sorted(shapes.items()):
+        for pressure in (0, 4, 9):
+            for a, b in ((1000, 7), (-5, 0), (1 << 40, 1)):
+                pre = [ins("mov", R(SAVE), GV), ins("mov", R(A), M("i64", 0, 1)), ins("mov", R(B), M("i64", 8, 1)), ins("mov", R(FREG), {"k": "ref", "f": 2})]
+                live = list(range(7, 7 + pressure))
+                pre += [ins("add", R(r), R(A), I(r)) for r in live]
+                pre += [callx(19, R(B))]                         # everything defined so far lives across this call
+                post = [ins("xor", R(T), R(T), R(r)) for r in live]
+                post += [ins("add", R(RES), R(RES), R(A))]        # the source of the first store stays live (and in its register) to the end
+                post += [ins("mov", GV, R(SAVE)), ins("mov", M("i64", 192, 1), R(T)), ins("mov", M("i64", 200, 1), R(RES)), ins("mov", M("i64", 208, 1), R(19)),
+                         {"op": "ret", "s": [R(T)]}]
+                insns, _ = progs.assemble(pre + body + post)
+                w = lambda v: (v & ((1 << 64) - 1)).to_bytes(8, "little")
+                c = progs.family_case(insns, 20, w(a) + w(b))
+                c["prog"]["funcs"][0]["gvar"] = True
+                c["prog"]["funcs"].append(G17_PY)
+                out.append(c)
+    return out
+
+
 def arith_const_cases(kmax, avals):
     """Parametric family: multiplication, division and remainder by every small constant (strength reduction, magic-number
     division, lea forms), 64- and 32-bit, signed and unsigned, for a few dividends incl. negative ones."""
@@ -234,7 +283,7 @@ def run(tier, cases=None, only_engines=None):
     else:
         ck.setc("states", len(cases)); ck.setc("transitions", len(cases))
     if only_engines is None and tier in ("quick", "thorough") and not os.environ.get("C01_NO_SWEEP") and len(cases) > 100:
-        fam, rf = progs.run_family(sweep_cases(200 if tier == "quick" else 600) + island_cases() + loop_cases()
+        fam, rf = progs.run_family(sweep_cases(200 if tier == "quick" else 600) + island_cases() + loop_cases() + gvar_cases()
                                    + (memwin_cases(40, vlib.seed() % 40) if tier == "quick" else memwin_cases(4, vlib.seed() % 4))
                                    + arith_const_cases(130 if tier == "quick" else 1100,
                                                        [1000003, -1000003] if tier == "quick" else [1000003, -1000003, 0x7fffffff, -(1 << 63), 0x123456789]))
